@@ -159,8 +159,11 @@ class Maybe:
         self.cond, self.value = cond, value
 
 
+GRAD_MODE = [0]  # nesting depth of `with torch.no_grad()` / `torch.inference_mode()` regions being interpreted
+
+
 class TV:
-    """Abstract tensor: term + (optional) shape + dtype typestate + alias set."""
+    """Abstract tensor: term + (optional) shape + dtype typestate + alias set + grad-mode typestate."""
 
     def __init__(
         self,
@@ -177,6 +180,7 @@ class TV:
         self.dtype = dtype  # "torch.float32" | ("same", param) | None (unknown)
         self.alias = alias  # parameters this value may share storage with
         self.const = const  # scalar expression if this is tensor(<python scalar>)
+        self.nograd = GRAD_MODE[0] > 0  # created while autograd recording was switched off by the analysed code
 
     def __repr__(self) -> str:
         return f"TV<{fmt(self.term)}>"
